@@ -177,6 +177,7 @@ def pg_part(ctx):
     checked = 0
     for prog in PROGRAMS:
         if any(op[0] in ('del', 'new') for op in prog['ops']) and not any(op[0] == 'w' for op in prog['ops']): continue
+        if prog in ROW3: continue          # they need the row another session creates
         marks = []
         from pony import orm
         notes = []
